@@ -314,10 +314,14 @@ impl SimdStringSearch {
             return Some(pos);
         }
 
-        // Search remaining bytes
-        let remaining = &haystack[16..];
-        if let Some(pos) = unsafe { self.sse42_strchr_max_16(remaining, needle) } {
-            return Some(16 + pos);
+        // Search remaining bytes (up to 19 of them: two more windows)
+        let mut start = 16;
+        while start < haystack.len() {
+            let end = (start + 16).min(haystack.len());
+            if let Some(pos) = unsafe { self.sse42_strchr_max_16(&haystack[start..end], needle) } {
+                return Some(start + pos);
+            }
+            start = end;
         }
 
         None
